@@ -23,10 +23,12 @@
 (* Part 3 states the property DECLARATIVELY per cell (window sets, index formulas,      *)
 (* counting) and the invariants PadOpt_* check the one against the other.               *)
 (*                                                                                     *)
-(* Out of the model (see notes/PadOpt.md): reflect_type="odd", median/mean are in;      *)
-(* linear_ramp on integer-dtype fields (np.linspace floors a float, not exact),         *)
-(* negative end_values for the mask, stat_length given per side, mode="empty",          *)
-(* callables.                                                                          *)
+(* In: constant (constant_values scalar / pair), maximum, minimum, mean, median           *)
+(* (stat_length), edge, wrap, reflect, symmetric (reflect_type "even"), linear_ramp      *)
+(* (end_values >= 0).  Out (see notes/PadOpt.md): reflect_type="odd", linear_ramp on     *)
+(* integer-dtype fields (np.linspace floors a float product, not exactly statable),      *)
+(* negative end_values (the Boolean ramp would hinge on a float being exactly zero),     *)
+(* stat_length per side, mode="empty", callables.                                        *)
 EXTENDS Cells, TLC
 
 CONSTANTS Shapes,    \* set of cell-count sequences (1-3 dimensions)
